@@ -65,6 +65,28 @@ theorem findIdx?_some_filterMap (l : List (Option Nat)) (x : Nat) :
           rw [List.erase_cons]
           simp [hvx]
 
+/-- no destructor passes NULL to `del` (GC_Rem_Ptr matches NULL against the struck-off slots of the pending list) -/
+def NoNull (K : Nat → List Nat) : Prop := ∀ p, 0 ∉ K p
+
+/-- the commands for which the strike-off scan of GC_Rem_Ptr behaves as a search for the object: a removal of a non-NULL
+    pointer, or any removal while no sweep is in progress (empty pending list) -/
+def CmdOk (r : Reg) : Cmd → Prop
+  | .fin _ => True
+  | .rem x => x ≠ 0 ∨ r.pending = #[]
+
+/-- for a non-NULL pointer the raw comparison `freelist[i] is ptr` is the search for a slot holding that object -/
+theorem pendPred_eq (x : Nat) (hx : x ≠ 0) : (fun y : Option Nat => y.getD 0 == x) = (fun y => y == some x) := by
+  funext y
+  cases y with
+  | none => simp; exact fun h => hx h.symm
+  | some v => simp
+
+theorem findIdx_pend (r : Reg) (x : Nat) (hx : x ≠ 0 ∨ r.pending = #[]) :
+    r.pending.findIdx? (fun y => y.getD 0 == x) = r.pending.findIdx? (fun y => y == some x) := by
+  rcases hx with h | h
+  · rw [pendPred_eq x h]
+  · rw [h]; simp
+
 /-- well-formedness while objects may be waiting on the pending list -/
 structure WFP (c : Cfg) (r : Reg) (L : Ledger) : Prop where
   core : Core c r L noMark
@@ -82,7 +104,7 @@ theorem WFP.toWF {c : Cfg} {r : Reg} {L : Ledger} (h : WFP c r L) (hp : r.pendin
 
 /-- **GC_Rem_Ptr** with a pending list: an address waiting to be finalised is struck off (first occurrence); otherwise a
     registered address is erased from the table; otherwise nothing happens. -/
-theorem remPtr_abs (c : Cfg) (r : Reg) (L : Ledger) (hwf : WFP c r L) (x : Nat) :
+theorem remPtr_abs (c : Cfg) (r : Reg) (L : Ledger) (hwf : WFP c r L) (x : Nat) (hx0 : x ≠ 0 ∨ r.pending = #[]) :
     ∃ r1 fi, remPtr c r x = some (r1, fi) ∧ r1.running = r.running ∧ r1.mitems = r.mitems ∧
       ((x ∈ pendList r ∧ fi = some x ∧ pendList r1 = (pendList r).erase x ∧ WFP c r1 L ∧ r1.pending.size = r.pending.size) ∨
        (x ∉ pendList r ∧ x ∈ L.map Prod.fst ∧ fi = some x ∧ r1.pending = r.pending ∧ WFP c r1 (L.filter (fun y => y.1 != x)) ∧
@@ -97,10 +119,15 @@ theorem remPtr_abs (c : Cfg) (r : Reg) (L : Ledger) (hwf : WFP c r L) (x : Nat) 
       omega
     refine ⟨r, none, rfl, rfl, rfl, Or.inr (Or.inr ⟨?_, hx, rfl, rfl⟩)⟩
     rw [hwf.pzero h0]; simp
-  · rw [dif_pos hn]
+  · rw [dif_pos hn, findIdx_pend r x hx0]
     cases hfi : r.pending.findIdx? (fun y => y == some x) with
     | some i =>
       simp only []
+      have hxne : x ≠ 0 := by
+        rcases hx0 with h | h
+        · exact h
+        · rw [h] at hfi; simp at hfi
+      rw [if_neg hxne]
       have hfi' : r.pending.toList.findIdx? (fun y => y == some x) = some i := by
         rw [← hfi]; cases r.pending; simp
       obtain ⟨h1, h2⟩ := findIdx?_some_filterMap _ x i hfi'
@@ -218,20 +245,20 @@ theorem rem_tail (c : Cfg) (g : GoodCfg c) (r2 : Reg) (L : Ledger) (h : WFP c r2
   · unfold pendList; show r3.pending.toList.filterMap id = _; rw [hmeta.pending]
 
 /-- **Nested removals refine the abstract recursion**, for every destructor behaviour `K` and every fuel. -/
-theorem exec_sim (c : Cfg) (g : GoodCfg c) (K : Nat → List Nat) :
-    ∀ (fuel : Nat) (r : Reg) (a : Abs) (cmd : Cmd), WFP c r a.1 → pendList r = a.2 →
+theorem exec_sim (c : Cfg) (g : GoodCfg c) (K : Nat → List Nat) (hK : NoNull K) :
+    ∀ (fuel : Nat) (r : Reg) (a : Abs) (cmd : Cmd), WFP c r a.1 → pendList r = a.2 → CmdOk r cmd →
       Sim c r.running r.pending.size (exec c K fuel r cmd) (absExec K r.running fuel a cmd) := by
   intro fuel
   induction fuel with
-  | zero => intro r a cmd _ _; simp [exec, absExec, Sim]
+  | zero => intro r a cmd _ _ _; simp [exec, absExec, Sim]
   | succ fuel ih =>
-    intro r a cmd hwf hp
+    intro r a cmd hwf hp hok
     cases cmd with
     | fin p =>
       rw [exec_fin_succ]
       simp only [absExec]
       -- the fold over the destructor's deletions keeps the simulation
-      have hfold : ∀ (l : List Nat) (x : Option (Reg × List Nat)) (y : Option (Abs × List Nat)),
+      have hfold : ∀ (l : List Nat) (x : Option (Reg × List Nat)) (y : Option (Abs × List Nat)), (∀ z ∈ l, z ≠ 0) →
           Sim c r.running r.pending.size x y →
           Sim c r.running r.pending.size
             (l.foldl (fun (acc : Option (Reg × List Nat)) y =>
@@ -250,17 +277,17 @@ theorem exec_sim (c : Cfg) (g : GoodCfg c) (K : Nat → List Nat) :
                 | some (a'', t') => some (a'', t ++ t')) y) := by
         intro l
         induction l with
-        | nil => intro x y h; exact h
+        | nil => intro x y _ h; exact h
         | cons z l ihl =>
-          intro x y h
+          intro x y hz h
           simp only [List.foldl_cons]
-          apply ihl
+          apply ihl _ _ (fun w hw => hz w (List.mem_cons_of_mem _ hw))
           match x, y, h with
           | none, none, _ => simp [Sim]
           | some (r', t), some (a', t'), h =>
             obtain ⟨h1, h2, h3, h4, h5⟩ := h
             subst h1
-            have := ih r' a' (.rem z) h2 h3
+            have := ih r' a' (.rem z) h2 h3 (Or.inl (hz z List.mem_cons_self))
             rw [h4, h5] at this
             simp only []
             match hx : exec c K fuel r' (.rem z), hy : absExec K r.running fuel a' (.rem z), this with
@@ -270,7 +297,7 @@ theorem exec_sim (c : Cfg) (g : GoodCfg c) (K : Nat → List Nat) :
               subst e1
               exact ⟨rfl, e2, e3, e4, e5⟩
       have h0 : Sim c r.running r.pending.size (some (r, [])) (some (a, [])) := ⟨rfl, hwf, hp, rfl, rfl⟩
-      have := hfold (K p) _ _ h0
+      have := hfold (K p) _ _ (fun z hz hz0 => hK p (hz0 ▸ hz)) h0
       match hx : (K p).foldl _ (some (r, [])), hy : (K p).foldl _ (some (a, [])), this with
       | none, none, _ => simp [Sim]
       | some (r', t), some (a', t'), h' =>
@@ -284,7 +311,7 @@ theorem exec_sim (c : Cfg) (g : GoodCfg c) (K : Nat → List Nat) :
       | false => simp only [Bool.not_false, if_true]; exact ⟨rfl, hwf, hp, hrun, rfl⟩
       | true =>
         simp only [Bool.not_true, Bool.false_eq_true, if_false]
-        obtain ⟨r1, fi, hrem, hrun1, _, hcases⟩ := remPtr_abs c r a.1 hwf x
+        obtain ⟨r1, fi, hrem, hrun1, _, hcases⟩ := remPtr_abs c r a.1 hwf x hok
         rw [hrem]; simp only []
         -- what happens after the (possible) finalisation
         have tail : ∀ (x' : Option (Reg × List Nat)) (y' : Option (Abs × List Nat)), Sim c true r.pending.size x' y' →
@@ -307,14 +334,14 @@ theorem exec_sim (c : Cfg) (g : GoodCfg c) (K : Nat → List Nat) :
         · subst hfi
           rw [← hp, if_pos hx]
           simp only []
-          have := ih r1 (a.1, (pendList r).erase x) (.fin x) hw1 hpl
+          have := ih r1 (a.1, (pendList r).erase x) (.fin x) hw1 hpl trivial
           rw [hrun1, hrun, hsz] at this
           exact tail _ _ this
         · subst hfi
           rw [← hp, if_neg hxp, if_pos hxL]
           simp only []
           have hpl : pendList r1 = pendList r := by unfold pendList; rw [hpend]
-          have := ih r1 (a.1.filter (fun y => y.1 != x), pendList r) (.fin x) hw1 hpl
+          have := ih r1 (a.1.filter (fun y => y.1 != x), pendList r) (.fin x) hw1 hpl trivial
           rw [hrun1, hrun, hpend] at this
           exact tail _ _ this
         · subst hfi; subst hr1
@@ -403,12 +430,13 @@ theorem nestFuel_ok (c : Cfg) (r : Reg) (L : Ledger) (h : WFP c r L) : 2 * Abs.s
 
 /-- **GC_Rem with arbitrary destructors**: from a well-formed state it answers; the new state is well formed for the
     abstract result, with the same deallocation trace. -/
-theorem gcRem_sim (c : Cfg) (g : GoodCfg c) (K : Nat → List Nat) (r : Reg) (L : Ledger) (h : WFP c r L) (x : Nat) :
+theorem gcRem_sim (c : Cfg) (g : GoodCfg c) (K : Nat → List Nat) (hK : NoNull K) (r : Reg) (L : Ledger) (h : WFP c r L) (x : Nat)
+    (hx : x ≠ 0 ∨ r.pending = #[]) :
     ∃ r' a' t, gcRem c K r x = some (r', t) ∧ absExec K r.running (nestFuel r) (L, pendList r) (.rem x) = some (a', t) ∧
       WFP c r' a'.1 ∧ pendList r' = a'.2 ∧ r'.running = r.running ∧ r'.pending.size = r.pending.size ∧
       Abs.size a' ≤ Abs.size (L, pendList r) := by
   obtain ⟨a', t, ha, hsz⟩ := absExec_ok K r.running (nestFuel r) (L, pendList r) (.rem x) (nestFuel_ok c r L h)
-  have hsim := exec_sim c g K (nestFuel r) r (L, pendList r) (.rem x) h rfl
+  have hsim := exec_sim c g K hK (nestFuel r) r (L, pendList r) (.rem x) h rfl hx
   rw [ha] at hsim
   unfold gcRem
   match hx : exec c K (nestFuel r) r (.rem x), hsim with
